@@ -869,6 +869,21 @@ def forall(lo, hi, fn, check_empty=True):
     return mk_bool(z3.ForAll([j], z3.Implies(rng, b)))
 
 
+_ZSTR: dict = {}
+
+
+def zstr(e):
+    """`str(e)` of a z3 term, cached per term (pretty-printing a large index term again and again dominated the run time of
+    the container contracts).  The cache holds the term itself, so its id is not reused while the entry exists."""
+    k = e.get_id()
+    hit = _ZSTR.get(k)
+    if hit is None:
+        if len(_ZSTR) > 200000:
+            _ZSTR.clear()
+        hit = _ZSTR[k] = (e, str(e))
+    return hit[1]
+
+
 def arbitrary(name):
     """An arbitrary integer: one unconstrained constant per (path, name), shared by loop invariants, contracts of
     callees and postconditions.  Nothing may be assumed about it except instances of facts that hold for every
